@@ -80,6 +80,7 @@ type Scenario struct {
 	Breaks       []Break      `json:"breaks,omitempty"`
 	CLI          bool         `json:"cli"`
 	Hostile      bool         `json:"hostile,omitempty"`
+	Displays     []string     `json:"displays,omitempty"` // hostile runs: display types to exercise
 	JSONVals     bool         `json:"json_vals,omitempty"`
 }
 
@@ -200,6 +201,27 @@ func (H) Generate(rng *simrt.Rand, prop, tier string) (any, simrt.Config) {
 		sc.Targets = append(sc.Targets, t)
 	}
 	sort.Slice(sc.Breaks, func(i, j int) bool { return sc.Breaks[i].AtNs < sc.Breaks[j].AtNs })
+	if prop == "C12" {
+		sc.Hostile = true
+		sc.CLI = true
+		sc.Breaks = nil
+		all := []string{"single", "group", "proto", "shortproto"}
+		sc.Displays = []string{all[rng.Intn(4)], all[rng.Intn(4)]}
+		for i := range sc.Targets {
+			sc.Targets[i].Raw = true
+			for si := range sc.Targets[i].Sessions {
+				ss := sc.Targets[i].Sessions[si]
+				for k := range ss {
+					if rng.Chance(0.5) {
+						ss[k] = gen.HostileNoti(rng, u, sc.Targets[i].Name, ss[k].TS)
+						if rng.Chance(0.3) {
+							ss[k].Target = ""
+						}
+					}
+				}
+			}
+		}
+	}
 	return sc, cfg
 }
 
@@ -577,6 +599,9 @@ func (H) Execute(x *common.Exec, s any) {
 		})
 	}
 	horizon := 90 * time.Second
+	if sc.Hostile {
+		horizon = 8 * time.Second
+	}
 	if len(sc.Breaks) > 0 {
 		horizon += time.Duration(sc.Breaks[len(sc.Breaks)-1].AtNs)
 	}
@@ -588,6 +613,11 @@ func (H) Execute(x *common.Exec, s any) {
 	}
 	if collectorDone || collectorErr != nil {
 		x.Violate("C01/collector-exited", "the collector stopped: %v", collectorErr)
+		return
+	}
+	if sc.Hostile {
+		x.NonTrivial = true
+		judgeHostile(x, sc, ctx, addr)
 		return
 	}
 	// ---- judgement: client view == target final state
@@ -814,5 +844,35 @@ func judgeCLI(x *common.Exec, sc *Scenario, ctx context.Context, addr string, ex
 				return
 			}
 		}
+	}
+}
+
+// judgeHostile (C12): every place the CLI and the client library read a
+// peer's messages, against the collector fed by hostile targets and against a
+// hostile server directly. Panics are reported by the framework; a CLI
+// process that exits or returns an error is fine.
+func judgeHostile(x *common.Exec, sc *Scenario, ctx context.Context, addr string) {
+	bld := gen.NewBuilder()
+	for i, t := range sc.Targets {
+		// a hostile server that answers any subscription with the target's raw stream
+		port := 43000 + i
+		raw, err := newRawTarget(port, responses(bld, t.Sessions[len(t.Sessions)-1]))
+		if err != nil {
+			continue
+		}
+		for _, a := range []string{addr, fmt.Sprintf("127.0.0.1:%d", port)} {
+			for _, dt := range sc.Displays {
+				for _, typ := range []client.Type{client.Once, client.Stream} {
+					cfg := &cli.Config{Display: func([]byte) {}, DisplayType: dt, Delimiter: "/", DisplayIndent: " ", ClientTypes: []string{gclient.Type}, Timestamp: []string{"", "on", "raw"}[i%3]}
+					q := client.Query{Addrs: []string{a}, Target: t.Name, Queries: []client.Path{{"*"}}, Type: typ, Timeout: 10 * time.Second}
+					if typ == client.Stream {
+						cfg.StreamingDuration = 2 * time.Second
+					}
+					x.Oblige(1)
+					runTask(x, "cli-"+dt, func() { cli.QueryDisplay(ctx, q, cfg) })
+				}
+			}
+		}
+		raw.Close()
 	}
 }
